@@ -182,7 +182,7 @@ func cmaps(e *harness.Env) {
 	}
 }
 
-func cmapGroup(e *harness.Env, prog []string, entries []entry, w int, format, sec string, via cmapVia) {
+func cmapGroup(e *harness.Env, prog []string, entries []entry, w int, format, sec string, via cmapVia, extra ...interface{}) {
 	var dec decoder
 	var openErr error
 	var opened bool
@@ -208,7 +208,9 @@ func cmapGroup(e *harness.Env, prog []string, entries []entry, w int, format, se
 		}
 		return hasArrayKind(prog)
 	}
-	base := []interface{}{"space", "cmap", "prog", strings.Join(prog, "."), "width", w, "fmt", format, "sec", sec, "via", via.name}
+	base := []interface{}{"space", "cmap"}
+	base = append(base, extra...) // e.g. the boundary code point of the astral programs
+	base = append(base, "prog", strings.Join(prog, "."), "width", w, "fmt", format, "sec", sec, "via", via.name)
 	for i := 0; i <= len(entries); i++ {
 		var desc string
 		if i < len(entries) {
